@@ -17,6 +17,20 @@ SIZES = {
 XPATH_FLAGS = ['', '', '', 'i', 's', 'm', 'x', 'im', 'sm', 'is', 'ix', 'ims']
 
 
+def run_cases(binary, cases, **kw):
+    """core.run_cases, retried when the shared library is being relinked by a concurrent build of the shared
+    cache (the loader then fails with 'file too short' / 'invalid ELF header' and the driver makes no progress)"""
+    import time
+    for attempt in range(6):
+        try:
+            return core.run_cases(binary, cases, **kw)
+        except RuntimeError as e:
+            if 'no progress' not in str(e) or attempt == 5:
+                raise
+            time.sleep(5 + 5 * attempt)
+            build.ensure('asan', parts=['regex'], sync=False)
+
+
 # ---------------------------------------------------------------------------------------------------
 #  case construction (runs in worker processes)
 # ---------------------------------------------------------------------------------------------------
@@ -92,7 +106,7 @@ def make_chunk(args):
         flags = '' if dialect == 'xsd' else rnd.choice(XPATH_FLAGS)
         ast = R.generate(rnd, dialect, flags)
         try:
-            c = build_case('%s%06d' % (dialect[:2], i), ast, dialect, flags, rnd, big=(i % 4 == 0), nlong=24 if tier == 'quick' else 30)
+            c = build_case('%s%06d' % (dialect[:2], i), ast, dialect, flags, rnd, big=(i % 6 == 0), nlong=21 if tier == 'quick' else 27)
             exp, ref = expectations(c)
             # the two reference matchers must agree with each other (sample)
             self_bad = 0
@@ -121,6 +135,64 @@ def make_mutants(args):
         for s in ('', 'a', 'ab'):
             c.txt(s)
         c.meta = {'class': 'regex-' + dialect, 'kind': 'mutant', 'dialect': dialect, 'flags': '', 'op': op}
+        out.append(c)
+    return out
+
+
+# ---------------------------------------------------------------------------------------------------
+#  pinned witnesses: one small expression per defect class seen on the unchanged tree, so that every class is
+#  exercised (and reported under its key) in every run, whatever the seed
+# ---------------------------------------------------------------------------------------------------
+def _l(ch): return ('lit', ord(ch))
+def _s(*xs): return ('seq', list(xs))
+def _a(*xs): return ('alt', list(xs))
+def _g(x): return ('grp', x)
+def _q(x, mn, mx, form, lazy=False): return ('rep', x, mn, mx, form, lazy)
+def _c(items, neg=False, sub=None): return ('cls', neg, list(items), sub)
+
+
+PINNED = [
+    # (name, dialect, flags, ast, extra strings)
+    ('nullable-continuation', 'xsd', '', _s(_g(_q(_l('a'), 0, None, '*')), _q(_g(_s(_l('a'), _l('b'))), 0, 1, '?')), ['ab', 'aab']),
+    ('variable-continuation', 'xsd', '', _s(_q(_l('a'), 0, 2, '{n,m}'), ('dot',), _g(_a(_s(_l('a'), ('dot',)), ('eps',)))), ['aaaa', 'aaa']),
+    ('final-closure-alternatives', 'xsd', '', _q(_g(_a(_s(_l('a'), _l('b')), _l('a'), _s(_l('b'), _l('c')))), 0, None, '*'), ['abc', 'aabc']),
+    ('overlapping-ranges', 'xsd', '', _c([('rng', 97, 99), ('rng', 98, 101)]), ['d', 'e', 'b']),
+    ('closure-before-negated-class', 'xsd', '', _s(_q(_c([('rng', 0x21, 0x2F), _l('[')]), 0, None, '*'), _c([_l('E')], neg=True), _l(':')), ['[:', '[[:']),
+    ('unbounded-over-nullable', 'xsd', '', _s(_q(_g(_q(_g(('esc', 's')), 0, None, '*')), 0, None, '*'), ('esc', 's')), [' ', '  ']),
+    ('dot-line-separator', 'xsd', '', _s(_l('a'), ('dot',)), ['a\u2028', 'a\u2029', 'ab']),
+    ('supplementary-category', 'xsd', '', _s(('cat', 'L', False), ('esc', 'd')), ['\U00020000\U0001D7CE', 'a1']),
+    ('dollar-final-newline', 'xpath', '', _s(_l('a'), ('eol',)), ['a\n', 'ba\n', 'a']),
+    ('multiline-separators', 'xpath', 'm', _s(('bol',), _l('a'), ('eol',)), ['b\u2028a', 'a\u2028b', 'b\na']),
+    ('head-char-supplementary', 'xpath', '', _q(('blk', 'PrivateUse', False), 1, None, '+'), ['\U000F0000', 'x\U000F0000']),
+    ('head-char-dot-closure', 'xpath', '', _s(_q(('dot',), 1, 2, '{n,m}'), _l('B')), ['aB', 'aaB', 'B']),
+    ('fixed-string-length', 'xpath', 'x', _s(_l('c'), _l('d')), ['cd', 'xcdx']),
+    ('empty-class-icase', 'xpath', 'i', _c([_l('a')], sub=_c([_l('a')])), ['a']),
+    ('empty-class-first-char', 'xpath', '', _s(_q(_c([_l('a')], sub=_c([_l('a')])), 0, None, '*'), _l('b')), ['b', 'ab']),
+    ('icase-subtraction', 'xpath', 'i', _c([('rng', 66, 98)], sub=_c([_l('b')])), ['b', 'B', 'C']),
+    ('leading-dot-star-window', 'xpath', '', _q(('dot',), 0, None, '*'), ['\n', 'a\nb']),
+]
+PINNED_HANG = ('lazy-unbounded-over-nullable', 'xpath', '', _s(_q(_g(_q(_l('a'), 0, None, '*')), 0, None, '*', True), _l('b')), ['aab', 'b'])
+
+
+def pinned_cases(which=None):
+    out = []
+    for name, dialect, flags, ast, extra in (PINNED if which is None else which):
+        rnd = core.rng('pinned', name)
+        ref = R.Ref(ast, dialect, flags)
+        alpha, strings = R.strings_for(ast, ref.env, rnd, big=False, nlong=6)
+        strings = [list(t) for t in strings]
+        for e in extra:
+            t = [ord(ch) for ch in e]
+            if t not in strings:
+                strings.append(t)
+        text = None
+        if name == 'fixed-string-length':
+            text = 'c d  '
+        c = build_case('pin-' + name, ast, dialect, flags, rnd, strings=strings, text=text)
+        exp, _ = expectations(c)
+        c.meta['exp'] = [[1 if v else 0, st] for v, st in exp]
+        c.meta['self_bad'] = 0
+        c.meta['pinned'] = name
         out.append(c)
     return out
 
@@ -475,7 +547,7 @@ def trial_cases(c, ast, s, tag, tok=False):
     out = []
     seen = {repr(R.flatten(ast))}
     for label, _, fn in TRIALS:
-        if L > 10 and label not in ('r', 'n'):
+        if L > 14 and label not in ('r', 'n'):
             continue
         if label == 'd' and c.meta['dialect'] == 'xsd':
             continue      # the scan over start positions exists only in the XPath dialect
@@ -490,7 +562,7 @@ def trial_cases(c, ast, s, tag, tok=False):
             cc = single_case(c, rw, [list(s)], '%s~%s~%s' % (c.id, tag, label), tok=tok)
         except (OverflowError, ValueError, KeyError):
             continue
-        if len(cc.steps[0][1]) > 4000:
+        if len(cc.steps[0][1]) > (4000 if L <= 8 else 1500):
             continue
         out.append((label, cc))
     return out
@@ -573,7 +645,7 @@ def shrink_many(binary, items, J, rounds=24):
                 it['live'] = False
         if not cases:
             break
-        recs = core.run_cases(binary, cases, shards=J, tag='c11s', per_case_timeout=10.0)
+        recs = run_cases(binary, cases, shards=max(1, min(J, len(cases) // 150)), tag='c11s', per_case_timeout=10.0)
         progressed = set()
         for cc in cases:
             n = cc.meta['item']
@@ -746,6 +818,18 @@ def run(tier):
                     key = 'C11:%s:%s' % (D, k)
                 ck.violation(key, describe(k), witness(c, r, [f]) if key not in ck.violations else {})
 
+    import threading
+    hang_box = {}
+
+    def hang_thread():
+        cs = pinned_cases([PINNED_HANG])
+        hang_box['cases'] = cs
+        hang_box['recs'] = run_cases(binary, cs, shards=1, tag='c11p', per_case_timeout=5.0)
+    th = threading.Thread(target=hang_thread)
+    th.start()
+    pins = pinned_cases()
+    recs = run_cases(binary, pins, shards=min(J, 4), tag='c11q', per_case_timeout=5.0)
+    handle(pins, recs)
     with ProcessPoolExecutor(J) as ex:
         pos = 0
         nxt = None
@@ -763,16 +847,28 @@ def run(tier):
                 batch = allwork[pos:pos + per_round]
                 pos += len(batch)
                 nxt = [ex.submit(make_mutants if k == 'mut' else make_chunk, a) for k, a in batch]
-            recs = core.run_cases(binary, cases, shards=J, tag='c11', per_case_timeout=5.0)
+            recs = run_cases(binary, cases, shards=J, tag='c11', per_case_timeout=5.0)
             handle(cases, recs)
             ck.note('round done: %d expressions so far, %d evaluations, %d disagreeing, %d overflow' % (
                 nexpr['xsd'] + nexpr['xpath'], ck.evaluations, len(disagree), len(overflow)))
 
+    th.join()
+    if 'recs' in hang_box:
+        for c in hang_box['cases']:
+            r = hang_box['recs'].get(c.id)
+            if r is not None and (r.hang or r.crash):
+                crashes += 1
+                if r.hang and not r.crash or is_match_overflow(r):
+                    overflow.append((c, r))
+                else:
+                    ck.crash_violation(r, c, prefix='C11:')
+            elif r is not None:
+                handle([c], {c.id: r})
     if hung:
         ck.note('re-running %d cases that were cut by the batch watchdog, each alone' % len(hung))
         from concurrent.futures import ThreadPoolExecutor
         with ThreadPoolExecutor(max(1, min(J, len(hung)))) as tex:
-            res = list(tex.map(lambda c: core.run_cases(binary, [c], shards=1, tag='c11h', per_case_timeout=20.0), hung))
+            res = list(tex.map(lambda c: run_cases(binary, [c], shards=1, tag='c11h', per_case_timeout=20.0), hung))
         recs = {}
         for d in res:
             recs.update(d)
@@ -869,6 +965,8 @@ def classify(ck, binary, disagree, optdiff, overflow, J, posfind=()):
             detail = 'supplementary-first-character'
         elif R.leading_dot_closure(m['ast']):
             detail = 'leading-dot-closure'
+        elif R.leading_dot_alternative(m['ast']):
+            detail = 'leading-dot-alternative'
         report('C11:%s:options-differ:%s:%s' % (dtag(m), label, detail), describe('options-differ'), lambda c=c, r=r, f=f: witness(c, r, [f]))
 
     # ---- 1. quirks; collect what is left
@@ -928,7 +1026,7 @@ def classify(ck, binary, disagree, optdiff, overflow, J, posfind=()):
         opend.append((c, r, cc))
     extra = [x for it in items for _, x in it['trials']] + [cc for _, _, cc in opend if cc is not None]
     ck.note('classification: %d items, %d rewritten cases' % (len(items), len(extra)))
-    recs = core.run_cases(binary, extra, shards=J, tag='c11c', per_case_timeout=10.0) if extra else {}
+    recs = run_cases(binary, extra, shards=J, tag='c11c', per_case_timeout=10.0) if extra else {}
     ck.evaluations += len(extra)
     todo = []
     for it in items:
@@ -946,7 +1044,7 @@ def classify(ck, binary, disagree, optdiff, overflow, J, posfind=()):
         for it in todo:
             it['trials2'] = trial_cases(it['c'], it['ast2'], it['s2'], 'min')
             cases2.extend(x for _, x in it['trials2'])
-        recs2 = core.run_cases(binary, cases2, shards=J, tag='c11d', per_case_timeout=10.0) if cases2 else {}
+        recs2 = run_cases(binary, cases2, shards=J, tag='c11d', per_case_timeout=10.0) if cases2 else {}
         for it in todo:
             it2 = dict(it, s=it['s2'], observed=(it['direction'] == 'false-accept'))
             it2['c'] = single_case(it['c'], it['ast2'], [it['s2']], it['c'].id + '~min')
@@ -1001,9 +1099,7 @@ def classify(ck, binary, disagree, optdiff, overflow, J, posfind=()):
 
 def fixed_string_end(m, f, c):
     """the expression is a plain string (Boyer-Moore only path) and the reported length is that of the pattern text"""
-    ast = m['ast']
-    parts = ast[1] if ast[0] == 'seq' else [ast]
-    if not all(p[0] == 'lit' for p in parts) or 'i' in m['flags']:
+    if 'i' in m['flags']:
         return False
     a, b = f['got']
     return b - a == len(pattern_of(c).encode('utf-16-le')) // 2
@@ -1019,7 +1115,7 @@ def replay(j):
     if m.get('kind') == 'valid':
         m['ast'] = R.ast_from_json(m['ast'])
     binary = build.ensure('asan', parts=['regex'])
-    recs = core.run_cases(binary, [c], shards=1, tag='c11r')
+    recs = run_cases(binary, [c], shards=1, tag='c11r')
     r = recs.get(c.id)
     print('pattern : %r   dialect=%s flags=%r options=%s' % (pattern_of(c), m.get('dialect'), m.get('flags'), c.opt.get('v')))
     if r is None:
@@ -1039,6 +1135,18 @@ def replay(j):
         return 1 if F else 0
     exp, ref = expectations(c)
     F, _ = judge(c, r, exp, ref)
+    want = [(f.get('kind'), f.get('step')) for f in w.get('findings', []) if f.get('step')]
+    if want:
+        # the witnessed finding is the subject of the replay; other deviations of the same case are only counted
+        rel = [f for f in F if (f['kind'], f.get('step')) in want or (f['kind'] == 'options-differ' and ('options-differ', f.get('step')) in want)]
+        if len(F) != len(rel):
+            print('(%d other findings in this case are not the subject of this witness)' % (len(F) - len(rel)))
+        if not rel:
+            for k, st in want:
+                s, lo, hi = m['steps'][st - 1]
+                print('witnessed finding %s on %r is gone: expected %s, observed %s' % (k, R.to_str(s), 'match' if exp[st - 1][0] else 'no match',
+                      [l for l in r.lines if l.split('\t')[1:2] == [str(st)]][:3]))
+        F = rel
     for f in F[:10]:
         st = f.get('step')
         print('finding : %s' % json.dumps(f, ensure_ascii=True, default=str))
@@ -1049,6 +1157,6 @@ def replay(j):
             for l in r.lines:
                 if l.split('\t')[1:2] == [str(st)]:
                     print('  observed: ' + l)
-    if not F:
+    if not F and not want:
         print('all %d strings agree with the reference' % len(exp))
     return 1 if F else 0
